@@ -61,12 +61,63 @@ struct Fixture {
     /// serialized proofs: (label, json tree, invalid_trace?)
     proofs: Vec<(String, Value, bool)>,
     verify_json: Box<dyn Fn(&Value) -> Verdict + Send + Sync>,
+    /// `VerifierManifest::matches` of the manifest derived from the HONEST proof of the fixture,
+    /// applied to the proof deserialised from the tree (`None`: not a proof)
+    manifest_json: Box<dyn Fn(&Value) -> Option<bool> + Send + Sync>,
     /// verdict after a postcard round trip of the object deserialised from the JSON tree
     verify_postcard: Box<dyn Fn(&Value) -> Verdict + Send + Sync>,
     /// in-memory alterations of proof fields that serialization does not carry
     /// (`stark_common.lookups`): (proof label, alteration, verdict in memory, verdict after a
     /// postcard round trip, verdict after a JSON round trip)
     inmem: Vec<(String, String, Verdict, Verdict, Verdict)>,
+}
+
+/// The manifest a verifier would write down for the honest proof of a fixture.
+fn manifest_of<SC>(p: &BatchStarkProof<SC>) -> p3_circuit_prover::manifest::VerifierManifest<p3_batch_stark::Val<SC>>
+where
+    SC: p3_batch_stark::StarkGenericConfig,
+    p3_batch_stark::Val<SC>: Copy,
+{
+    use p3_circuit_prover::air::AluExtMulKind;
+    use p3_circuit_prover::manifest::{ExpectedNpoEntry, VerifierManifest};
+    VerifierManifest {
+        ext_degree: p.ext_degree,
+        reduction: if p.alu_quintic_trinomial {
+            AluExtMulKind::QuinticTrinomial
+        } else {
+            match p.w_binomial {
+                Some(w) => AluExtMulKind::Binomial { w },
+                None => AluExtMulKind::Base,
+            }
+        },
+        alu_variant: p.alu_variant,
+        expected_npo: p
+            .non_primitives
+            .iter()
+            .map(|e| ExpectedNpoEntry { op_type: e.op_type.clone(), air_variant: e.air_variant, public_values_len: e.public_values.len() })
+            .collect(),
+    }
+}
+
+/// Reference for `VerifierManifest::matches` on the JSON trees: the fields a manifest covers
+/// (everything but `w_binomial`, whose encoding is not compared here) agree position by position.
+fn manifest_ref(honest: &Value, t: &Value) -> bool {
+    for k in ["ext_degree", "alu_quintic_trinomial", "alu_variant"] {
+        if honest.get(k) != t.get(k) {
+            return false;
+        }
+    }
+    let (Some(a), Some(b)) = (honest.get("non_primitives").and_then(|x| x.as_array()), t.get("non_primitives").and_then(|x| x.as_array())) else {
+        return honest.get("non_primitives") == t.get("non_primitives");
+    };
+    if a.len() != b.len() {
+        return false;
+    }
+    a.iter().zip(b).all(|(x, y)| {
+        x.get("op_type") == y.get("op_type")
+            && x.get("air_variant") == y.get("air_variant")
+            && x.get("public_values").and_then(|v| v.as_array()).map(|v| v.len()) == y.get("public_values").and_then(|v| v.as_array()).map(|v| v.len())
+    })
 }
 
 macro_rules! verdict_of {
@@ -289,6 +340,14 @@ fn bb_fixture<const EXT: bool>() -> Fixture {
     Fixture {
         name: if EXT { "babybear-d4-alu" } else { "babybear-d1-alu" },
         inmem,
+        manifest_json: {
+            let m = proofs.first().and_then(|p| serde_json::from_value::<Proof>(p.1.clone()).ok()).map(|p| manifest_of(&p));
+            Box::new(move |v| {
+                let m = m.as_ref()?;
+                let p = serde_json::from_value::<Proof>(v.clone()).ok()?;
+                quiet_catch(|| m.matches(&p).is_ok()).ok()
+            })
+        },
         proofs,
         verify_json: Box::new(move |v| match serde_json::from_value::<Proof>(v.clone()) {
             Err(_) => Verdict::NotAProof,
@@ -418,6 +477,14 @@ fn kb_npo_fixture<const REVERSED: bool>() -> Fixture {
     Fixture {
         name: if REVERSED { "koalabear-d4-recompose-poseidon2(reverse registration)" } else { "koalabear-d4-poseidon2-recompose" },
         inmem,
+        manifest_json: {
+            let m = proofs.first().and_then(|p| serde_json::from_value::<Proof>(p.1.clone()).ok()).map(|p| manifest_of(&p));
+            Box::new(move |v| {
+                let m = m.as_ref()?;
+                let p = serde_json::from_value::<Proof>(v.clone()).ok()?;
+                quiet_catch(|| m.matches(&p).is_ok()).ok()
+            })
+        },
         proofs,
         verify_json: Box::new(move |v| match serde_json::from_value::<Proof>(v.clone()) {
             Err(_) => Verdict::NotAProof,
@@ -799,6 +866,19 @@ fn main() {
                 }
                 Verdict::Reject(_) => {
                     nontrivial.fetch_add(1, Ordering::Relaxed);
+                }
+            }
+            // (e) the caller-side manifest written down for the honest proof accepts the altered
+            // proof iff every field it covers (degree, reduction kind, ALU variant, table list in
+            // order with variants and public-value lengths) is unchanged
+            if !sel.iter().any(|a| a.path.starts_with("/w_binomial")) {
+                if let Some(m) = (fx.manifest_json)(&t) {
+                    evals.fetch_add(1, Ordering::Relaxed);
+                    let r = manifest_ref(honest_tree, &t);
+                    if m != r {
+                        let dir = if m { "accepts_contradicting_metadata" } else { "rejects_matching_metadata" };
+                        report.violation(format!("manifest:{dir}:{}", classes.join("+")), format!("{}: VerifierManifest::matches {} for {:?}", fx.name, dir, desc), json!({"fixture": fx.name, "proof": p.0, "alterations": desc}));
+                    }
                 }
             }
             // (d) on altered proofs that deserialise: postcard round trip keeps the verdict
